@@ -74,7 +74,7 @@ def body_factory(ctx):
                 got = orbit.radial_velocity(Time(t_all, format="mjd", scale="tcb")).to_value(du)
             scale = np.abs(x[keep]) @ np.max(np.abs(M_all[:, keep]), axis=0) + 1e-300
             tol = 1e-8 * scale * (1 + 2 * math.pi * np.max(np.abs(t_all - prob.t_ref)) / row["P"] * 1e-7 / max(1e-3, 1 - row["e"]))
-            if np.max(np.abs(got - want)) > tol:
+            if not (np.max(np.abs(got - want)) <= tol):
                 j = int(np.argmax(np.abs(got - want)))
                 raise Violation("%s: the orbit reconstructed from a sample row is not the sampler's RV model" % label,
                                 row=row, x=x, t=t_all[j], orbit_rv=got[j], model_rv=want[j], tol=tol, t_ref=prob.t_ref,
@@ -96,7 +96,7 @@ def body_factory(ctx):
             var = prob.err ** 2 + row["s"] ** 2
             want_lu = ln_normal_sum(prob.y, mean_full, var)
             chi_scale = float(np.sum(np.abs(prob.y - mean_full) / var * scale)) * 1e-8 + 1e-9 * (abs(want_lu) + prob.n)
-            if abs(lu - want_lu) > chi_scale + 1e-9:
+            if not (abs(lu - want_lu) <= chi_scale + 1e-9):
                 raise Violation("%s: ln_unmarginalized_likelihood is not sum ln N(y | model, sigma^2 + s^2)" % label,
                                 row=row, x=x, got=lu, want=want_lu, tol=chi_scale)
             # ---- (c) Bayes identity with the closed-form marginal on the left
@@ -113,7 +113,7 @@ def body_factory(ctx):
                 cond = og._scaled_cond(A)
                 tol_id = og.tol_of(ev) + chi_scale + 1e-9 + 64 * og.EPS * cond * (abs(z @ z) + free.sum() + abs(lnpost))
                 ctx.stat_max("max |Bayes identity residual| / tol", abs(resid) / tol_id)
-                if abs(resid) > tol_id:
+                if not (abs(resid) <= tol_id):
                     raise Violation("%s: marginal likelihood, unmarginalised likelihood of the reconstructed orbit, linear "
                                     "prior and conditional posterior are not mutually consistent" % label,
                                     row=row, x=x, residual=resid, tol=tol_id, marginal=ev["ll"], unmarginalized=lu,
@@ -159,7 +159,7 @@ def body_factory(ctx):
             rows_w = [dict(r, omega=(r["omega"] + math.pi) if xs[i, 0] < 0 else r["omega"]) for i, r in enumerate(rows_eff)]
             om_tab = hb["omega"].to_value(u.rad)
             for i, r in enumerate(rows_w):
-                if abs(math.remainder(float(om_tab[i]) - r["omega"], 2 * math.pi)) > 1e-9:
+                if not (abs(math.remainder(float(om_tab[i]) - r["omega"], 2 * math.pi)) <= 1e-9):
                     raise Violation("wrap_K did not move omega by pi (mod 2 pi) exactly where K was negative", row=rows_eff[i],
                                     K=float(xs[i, 0]), omega_after=float(om_tab[i]), omega_unit=str(hb["omega"].unit))
             check_rows(spec, prob, data, prob.t_ref, hb, xs_w, rows_w, "hand-built rows after wrap_K")
